@@ -273,3 +273,19 @@ def check_accumulators_threaded(ctx, fns, callees=('get_derived_edges_for_node',
                            f'{kwname}={norm(passed)}' if passed is not None else
                            f'{kwname}= is not passed: every iteration decides derived-only against the untouched graph')
     return n
+
+
+def none_fact(name, is_none=True):
+    """Guard predicate: the fact `<name> is None` (is_none=True) or `<name> is not None`, whichever way the test is
+    written (`x is None` true / `x is not None` false / `x == None` ...)."""
+    def g(atom, truth):
+        if not (isinstance(atom, ast.Compare) and len(atom.ops) == 1 and norm(atom.left) == name and
+                isinstance(atom.comparators[0], ast.Constant) and atom.comparators[0].value is None):
+            return False
+        op = atom.ops[0]
+        if isinstance(op, (ast.Is, ast.Eq)):
+            return truth is is_none
+        if isinstance(op, (ast.IsNot, ast.NotEq)):
+            return truth is (not is_none)
+        return False
+    return g
